@@ -10,6 +10,7 @@
 #include "llbuild/Basic/ExecutionQueue.h"
 #include "llbuild/Core/BuildDB.h"
 #include "llbuild/Core/BuildEngine.h"
+#include "llbuild/llbuild.h"
 
 #include <sqlite3.h>
 
@@ -72,7 +73,7 @@ Json EngineGen::generate(uint64_t seed, const runner::GenOptions& opt, const Eng
   bool useSingle = f.single && rng.chance(400);
   bool useFollow = f.follow && rng.chance(400);
   bool useCollapse = f.collapse && rng.chance(600);
-  bool useForce = f.force && rng.chance(250);
+  bool useForce = f.force && rng.chance(opt.property == "C20" ? 600 : 250);
   bool useCycles = f.cycles && rng.chance(f.cyclePermille);
   int asyncPermille = f.asyncPermille;
   bool allAsync = asyncPermille > 0 && rng.chance(asyncPermille);
@@ -242,6 +243,8 @@ Json EngineGen::generate(uint64_t seed, const runner::GenOptions& opt, const Eng
       else v = spellValue(rng, vcounter++, valStyle);
       past[id].push_back(v);
       hist.push(Json::obj().set("op", "set").set("k", id).set("v", util::hex(v)));
+    } else if (roll < 760 && f.clientVersions && rng.chance(400)) {
+      hist.push(Json::obj().set("op", "client_version").set("v", (int64_t)rng.range(1, 4)));
     } else if (roll < 800 && f.restart) {
       hist.push(Json::obj().set("op", "restart"));
     } else if (roll < 850 && f.invalidate && !computed.empty()) {
@@ -399,6 +402,13 @@ struct Run : public BuildEngineDelegate, public basic::ExecutionQueueDelegate {
   bool dropRestarts = false;
   bool allowCycleBreak = false;
   bool ignoreCancel = false;
+  // C20: drive the engine through the libllbuild C interface instead of the C++ one
+  bool capi = false;
+  bool zeroSignatures = false;       // what core.h can express: rules without signatures
+  llb_buildengine_t* cengine = nullptr;
+  uint64_t committedEpoch = 0;       // epoch of the last build that reached the database (or ran on this engine)
+  bool engineFresh = true;
+  std::vector<std::unique_ptr<Rule>> cRules;   // rule logic objects behind llb_rule_t (C mode)
 
   // engine
   std::unique_ptr<BuildEngine> engine;
@@ -446,6 +456,8 @@ struct Run : public BuildEngineDelegate, public basic::ExecutionQueueDelegate {
   bool changedSince = true;
   std::string lastOkTarget;
   int restartsDone = 0;
+  int versionChanges = 0;
+  uint32_t diskClientVersion = 0;
   int skippedAfterRestart = 0;
   bool restartedSinceBuild = false;
   bool cancelGo = false, cancelDone = true, cancelAbort = false;
@@ -510,7 +522,7 @@ struct Run : public BuildEngineDelegate, public basic::ExecutionQueueDelegate {
     evh.str(key);
     evh.str(a);
     evh.u64((uint64_t)n);
-    if (kind != EV_LOOKUP) {
+    if (kind != EV_LOOKUP && !(zeroSignatures && (kind == EV_REASON || kind == EV_PRIOR))) {
       buildEvh.u64((uint64_t)kind);
       buildEvh.str(key);
       buildEvh.str(a);
@@ -535,6 +547,7 @@ struct Run : public BuildEngineDelegate, public basic::ExecutionQueueDelegate {
   void viol(const std::string& clauseIn, const std::string& detail) {
     std::string clause = clauseIn;
     // the continuation after a simulated crash is judged by C01's oracle but belongs to C04
+    if (property == "C20" && clause == "C03.2") clause = "C20.3";
     if (property == "C04" && crashed) {
       if (clause == "C01.1" || clause == "C01.2") clause = "C04.5";
       else if (clause == "C03.2") clause = "C04.4";
@@ -607,6 +620,8 @@ struct Run : public BuildEngineDelegate, public basic::ExecutionQueueDelegate {
   void checkDatabase(const char* when);
   void doCancel(bool engineThread);
   void doRestart();
+  std::string finalDbDump;
+  std::string dumpDatabase();
   void execute();
   void finishResult();
 };
@@ -620,9 +635,12 @@ public:
   Run* run;
   int rid; // -1: unknown key
   SimRule(Run* run, const KeyType& key, uint64_t sig, int rid) : Rule(key, basic::CommandSignature(sig)), run(run), rid(rid) {}
-  Task* createTask(BuildEngine&) override;
-  bool isResultValid(BuildEngine&, const ValueType& value) override;
-  void updateStatus(BuildEngine&, StatusKind status) override;
+  Task* createTask(BuildEngine&) override { return doCreateTask(); }
+  bool isResultValid(BuildEngine&, const ValueType& value) override { return doIsResultValid(value); }
+  void updateStatus(BuildEngine&, StatusKind status) override { doUpdateStatus(status); }
+  Task* doCreateTask();
+  bool doIsResultValid(const ValueType& value);
+  void doUpdateStatus(StatusKind status);
 };
 
 class SimTask : public Task {
@@ -647,7 +665,7 @@ ValueType toVal(const std::string& s) { return ValueType(s.begin(), s.end()); }
 
 void Run::engineCallback(const char* where) {
   cbCount++;
-  if (!inBuild && engine) viol("C05.2", std::string("engine callback '") + where + "' delivered while no build is running");
+  if (!inBuild && (engine || cengine)) viol("C05.2", std::string("engine callback '") + where + "' delivered while no build is running");
   // createExecutionQueue is called with the engine's queue mutex held: cancelling from inside that one
   // delegate callback self-deadlocks by construction and is not a task callback (outside C05's quantifier)
   bool inQueueFactory = !strcmp(where, "createExecutionQueue");
@@ -722,17 +740,18 @@ std::unique_ptr<Rule> Run::lookupRule(const KeyType& key) {
   ev(EV_LOOKUP, key.str());
   uint64_t sig = 1;
   if (id >= 0) sig = prog.get(id)->signature();
+  if (zeroSignatures) sig = 0;
   return std::unique_ptr<Rule>(new SimRule(this, key, sig, id));
 }
 
-Task* SimRule::createTask(BuildEngine&) {
+Task* SimRule::doCreateTask() {
   Run* r = run;
   const std::string& k = key.str();
   r->ev(EV_CREATE_TASK, k);
   int c = ++r->createCount[k];
   if (c > 1) r->viol("C02.1", "rule " + util::printable(k) + " executed " + std::to_string(c) + " times in build " + std::to_string(r->buildNo));
   auto it = r->reasons.find(k);
-  if (it == r->reasons.end())
+  if (it == r->reasons.end() && !r->capi)
     r->viol("C02.2", "rule " + util::printable(k) + " executed without a reported reason in build " + std::to_string(r->buildNo));
   KeyShadow& m = r->mem[k];
   m.interrupted = true; // until processed to completion
@@ -748,7 +767,7 @@ Task* SimRule::createTask(BuildEngine&) {
   return new SimTask(r, sp);
 }
 
-bool SimRule::isResultValid(BuildEngine&, const ValueType& value) {
+bool SimRule::doIsResultValid(const ValueType& value) {
   Run* r = run;
   const std::string& k = key.str();
   bool valid = true;
@@ -767,7 +786,7 @@ bool SimRule::isResultValid(BuildEngine&, const ValueType& value) {
   return valid;
 }
 
-void SimRule::updateStatus(BuildEngine&, StatusKind status) {
+void SimRule::doUpdateStatus(StatusKind status) {
   Run* r = run;
   const std::string& k = key.str();
   r->ev(EV_STATUS, k, status == StatusKind::IsScanning ? "scanning" : status == StatusKind::IsUpToDate ? "up-to-date" : "complete");
@@ -957,7 +976,12 @@ void SimTask::request(TaskInterface ti, int k, int t) {
   st->reqOrder.push_back({target->key, t == FOLLOW, t == SINGLE});
   run->requestedThisBuild[st->key].insert(target->key);
   run->ev(EV_REQUEST, st->key, target->key, t);
-  if (t == REQ) ti.request(KeyType(target->key), (uintptr_t)k);
+  if (run->capi) {
+    llb_task_interface_t cti = *reinterpret_cast<llb_task_interface_t*>(&ti);
+    llb_data_t kd{target->key.size(), (const uint8_t*)target->key.data()};
+    if (t == FOLLOW) llb_buildengine_task_must_follow(cti, &kd);
+    else llb_buildengine_task_needs_input(cti, &kd, (uintptr_t)k);   // core.h has no single-use request
+  } else if (t == REQ) ti.request(KeyType(target->key), (uintptr_t)k);
   else if (t == SINGLE) ti.requestSingleUse(KeyType(target->key), (uintptr_t)k);
   else ti.mustFollow(KeyType(target->key));
 }
@@ -1080,6 +1104,7 @@ void SimTask::inputsAvailable(TaskInterface ti) {
   TaskState* ts = st;
   std::string key = st->key;
   uint64_t sig = spec ? spec->signature() : 1;
+  if (r->zeroSignatures) sig = 0;
   auto work = [r, ts, key, value, discKeys, force, ti, delayUs, sig](bool async) mutable {
     if (async) {
       if (delayUs) sim::sleep_ns((uint64_t)delayUs * 1000ULL);
@@ -1088,7 +1113,12 @@ void SimTask::inputsAvailable(TaskInterface ti) {
     }
     for (auto& dk : discKeys) {
       r->ev(EV_DISCOVERED, key, dk);
-      ti.discoveredDependency(KeyType(dk));
+      if (r->capi) {
+        llb_data_t kd{dk.size(), (const uint8_t*)dk.data()};
+        llb_buildengine_task_discovered_dependency(*reinterpret_cast<llb_task_interface_t*>(&ti), &kd);
+      } else {
+        ti.discoveredDependency(KeyType(dk));
+      }
       if (async) sim::yield("discovered");
     }
     // shadow of what the engine does inside complete(): value/signature/changed epoch move now,
@@ -1106,11 +1136,16 @@ void SimTask::inputsAvailable(TaskInterface ti) {
     ts->completeCalled = true;
     r->computingNow--;
     r->ev(EV_COMPLETE, key, value, force);
-    ti.complete(toVal(value), force);
+    if (r->capi) {
+      llb_data_t vd{value.size(), (const uint8_t*)value.data()};
+      llb_buildengine_task_is_complete(*reinterpret_cast<llb_task_interface_t*>(&ti), &vd, force);
+    } else {
+      ti.complete(toVal(value), force);
+    }
   };
   if (mode == 0) {
     work(false);
-  } else if (mode == 1) {
+  } else if (mode == 1 && !r->capi) {
     ti.spawn(basic::QueueJob(&g_jobDesc, [work](basic::QueueJobContext*) mutable { work(true); }));
   } else {
     sim::spawn("completer", [work]() mutable { work(true); });
@@ -1145,6 +1180,8 @@ void Run::load() {
     killAt = kj->getn("n", -1);
   }
   ignoreCancel = cfg->getb("ignore_cancel");
+  capi = cfg->getb("capi");
+  zeroSignatures = cfg->getb("zero_signatures");
   restartEveryBuild = cfg->getb("restart_every_build");
   dropRestarts = cfg->getb("drop_restarts");
   for (auto& j : plan.geta("rules")) {
@@ -1168,9 +1205,100 @@ void Run::load() {
   res.shape = sh.get();
 }
 
+// ---- the libllbuild C interface (C20): the same rule/task logic objects sit behind C callbacks
+namespace capi_glue {
+void taskDestroy(void* ctx) { delete static_cast<SimTask*>(ctx); }
+void taskStart(void* ctx, void*, llb_task_interface_t ti) { static_cast<SimTask*>(ctx)->start(*reinterpret_cast<TaskInterface*>(&ti)); }
+void taskProvide(void* ctx, void*, llb_task_interface_t ti, uintptr_t inputID, const llb_data_t* value) {
+  SimTask* t = static_cast<SimTask*>(ctx);
+  // core.h does not pass the key of the input: the client identifies it by the id it chose
+  const RuleSpec* target = t->run->prog.get((int)inputID);
+  KeyType key(target ? target->key : std::string("?"));
+  t->provideValue(*reinterpret_cast<TaskInterface*>(&ti), inputID, key, ValueType(value->data, value->data + value->length));
+}
+void taskInputsAvailable(void* ctx, void*, llb_task_interface_t ti) { static_cast<SimTask*>(ctx)->inputsAvailable(*reinterpret_cast<TaskInterface*>(&ti)); }
+llb_task_t* ruleCreateTask(void* ctx, void*) {
+  SimRule* r = static_cast<SimRule*>(ctx);
+  Task* logic = r->doCreateTask();
+  llb_task_delegate_t d;
+  memset(&d, 0, sizeof d);
+  d.context = logic;
+  d.destroy_context = taskDestroy;
+  d.start = taskStart;
+  d.provide_value = taskProvide;
+  d.inputs_available = taskInputsAvailable;
+  return llb_task_create(d);
+}
+bool ruleIsValid(void* ctx, void*, const llb_rule_t*, const llb_data_t* result) {
+  return static_cast<SimRule*>(ctx)->doIsResultValid(ValueType(result->data, result->data + result->length));
+}
+void ruleStatus(void* ctx, void*, llb_rule_status_kind_t kind) { static_cast<SimRule*>(ctx)->doUpdateStatus((Rule::StatusKind)kind); }
+void lookupRule(void* ctx, const llb_data_t* key, llb_rule_t* out) {
+  Run* run = static_cast<Run*>(ctx);
+  std::unique_ptr<Rule> logic = run->lookupRule(KeyType((const char*)key->data, key->length));
+  memset(out, 0, sizeof *out);
+  out->context = logic.get();
+  out->create_task = ruleCreateTask;
+  out->is_result_valid = ruleIsValid;
+  out->update_status = ruleStatus;
+  run->cRules.push_back(std::move(logic));
+}
+void engineError(void* ctx, const char* message) { static_cast<Run*>(ctx)->error(llvm::Twine(message)); }
+void cycleDetected(void* ctx, const llb_data_t* keys, uint64_t n) {
+  Run* run = static_cast<Run*>(ctx);
+  // rebuild the rule list from the keys: the logic objects are owned by the run
+  std::vector<Rule*> items;
+  for (uint64_t i = 0; i < n; i++) {
+    std::string k((const char*)keys[i].data, keys[i].length);
+    Rule* found = nullptr;
+    for (auto& r : run->cRules)
+      if (r->key.str() == k) found = r.get();
+    if (found) items.push_back(found);
+  }
+  run->cycleDetected(items);
+}
+} // namespace capi_glue
+
 void Run::ensureEngine() {
+  if (!engine && !cengine && useDb) {
+    // the next attach compares the requested client version with the one the file on disk was created under
+    if (diskClientVersion != 0 && diskClientVersion != clientVersion) {
+      // never interpreted: the database is recreated empty
+      mem.clear();
+      dbv.clear();
+      dbCommitted.clear();
+      committedEpoch = 0;
+      versionChanges++;
+      ctr()["db_recreated_for_version_change"]++;
+    }
+    diskClientVersion = clientVersion;
+  }
+  if (capi) {
+    if (cengine) return;
+    llb_buildengine_delegate_t d;
+    memset(&d, 0, sizeof d);
+    d.context = this;
+    d.lookup_rule = capi_glue::lookupRule;
+    d.error = capi_glue::engineError;
+    d.cycle_detected = capi_glue::cycleDetected;
+    cengine = llb_buildengine_create(d);
+    engineFresh = true;
+    attachFailed = false;
+    if (useDb) {
+      llb_data_t pd{dbPath.size(), (const uint8_t*)dbPath.data()};
+      char* err = nullptr;
+      if (!llb_buildengine_attach_db(cengine, &pd, clientVersion, &err)) {
+        attachFailed = true;
+        attachError = err ? err : "";
+        ev(EV_ERROR, "", "attach: " + attachError);
+      }
+      free(err);
+    }
+    return;
+  }
   if (engine) return;
   engine.reset(new BuildEngine(*this));
+  engineFresh = true;
   attachFailed = false;
   if (useDb) {
     std::string err;
@@ -1184,6 +1312,11 @@ void Run::ensureEngine() {
 }
 
 void Run::dropEngine() {
+  if (cengine) {
+    llb_buildengine_destroy(cengine);
+    cengine = nullptr;
+    cRules.clear();
+  }
   engine.reset();
 }
 
@@ -1251,6 +1384,29 @@ void Run::checkDatabase(const char* when) {
   }
   for (auto& e : dbCommitted)
     if (!seen.count(e.first)) viol("C03.2", "result of " + util::printable(e.first) + " is missing from the database " + when);
+}
+
+std::string Run::dumpDatabase() {
+  if (!useDb) return "(no database)";
+  std::string err;
+  auto db = createSQLiteBuildDB(dbPath, clientVersion, false, &err);
+  ReadbackDelegate del;
+  db->attachDelegate(&del);
+  std::vector<KeyType> keys;
+  std::vector<Result> results;
+  if (!db->getKeysWithResult(keys, results, &err)) return "(unreadable: " + err + ")";
+  std::vector<std::string> rows;
+  for (size_t i = 0; i < keys.size(); i++) {
+    std::string row = util::hex(keys[i].str()) + " v=" + util::hex(toStr(results[i].value)) + " sig=" + std::to_string(results[i].signature.value) +
+                      " built=" + std::to_string(results[i].builtAt) + " computed=" + std::to_string(results[i].computedAt) + " deps=";
+    for (auto d : results[i].dependencies)
+      row += util::hex(del.getKeyForID(d.keyID).str()) + (d.orderOnly ? "/o" : "") + (d.singleUse ? "/s" : "") + ",";
+    rows.push_back(row);
+  }
+  std::sort(rows.begin(), rows.end());
+  std::string out;
+  for (auto& r : rows) out += r + "\n";
+  return out;
 }
 
 void Run::opBuild(const Json& op) {
@@ -1322,9 +1478,12 @@ void Run::opBuild(const Json& op) {
     }
     return;
   }
-  if (prevBuildCancelled || engine->isCancelled()) engine->resetForBuild();
+  if (!capi && (prevBuildCancelled || engine->isCancelled())) engine->resetForBuild();
   prevBuildCancelled = false;
-  engineEpoch = engine->getCurrentEpoch() + 1;
+  // the engine numbers builds consecutively, continuing from what the attached database stored
+  if (capi) engineEpoch = (engineFresh ? (useDb ? committedEpoch : 0) : engineEpoch) + 1;
+  else engineEpoch = engine->getCurrentEpoch() + 1;
+  engineFresh = false;
   epochBuild[engineEpoch] = buildNo;
   ev(EV_BUILD_BEGIN, targetKey);
   inBuild = true;
@@ -1345,9 +1504,16 @@ void Run::opBuild(const Json& op) {
     });
   }
 
-  const ValueType& result = engine->build(KeyType(targetKey));
+  ValueType copy;
+  if (capi) {
+    llb_data_t kd{targetKey.size(), (const uint8_t*)targetKey.data()};
+    llb_data_t out{0, nullptr};
+    llb_buildengine_build(cengine, &kd, &out);
+    copy.assign(out.data, out.data + out.length);
+  } else {
+    copy = engine->build(KeyType(targetKey));
+  }
   inBuild = false;
-  ValueType copy = result;
   cancelAbort = true;
   cancelGo = true;
   if (!cancelDone) sim::block_until([this]() { return cancelDone; }, 0, "join-canceller");
@@ -1607,6 +1773,7 @@ void Run::afterBuild(const ValueType& result) {
   // the database transaction of this build is committed by now (the engine closed the connection)
   if (useDb) {
     dbCommitted = dbv;
+    committedEpoch = engineEpoch;
     checkDatabase(("after build " + std::to_string(buildNo)).c_str());
   }
 }
@@ -1630,7 +1797,16 @@ void Run::execute() {
       ev(EV_SET, t->key, ext[k]);
     } else if (kind == "restart") {
       if (dropRestarts) continue;
-      if (engine || buildNo > 0) doRestart();
+      if (engine || cengine || buildNo > 0) doRestart();
+    } else if (kind == "client_version") {
+      // a different client version: the database must be recreated empty, never interpreted
+      uint32_t v = (uint32_t)op.getn("v", 1);
+      if (engine || cengine || buildNo > 0) doRestart();
+      if (useDb) {
+        clientVersion = v;
+        ev(EV_NOTE, "", "client-version", v);
+      }
+      changedSince = true;
     } else if (kind == "invalidate") {
       const RuleSpec* t = prog.get((int)op.getn("k"));
       if (!t || t->leaf) continue;
@@ -1641,7 +1817,7 @@ void Run::execute() {
       auto it = prog.rules.find((int)op.getn("k"));
       if (it == prog.rules.end()) continue;
       // a rule's signature is fixed for the lifetime of an engine: new definition => new engine
-      if (engine || buildNo > 0) doRestart();
+      if (engine || cengine || buildNo > 0) doRestart();
       it->second.nonce = (uint64_t)op.getn("nonce");
       changedSince = true;
       ev(EV_NOTE, it->second.key, "resig");
@@ -1649,7 +1825,7 @@ void Run::execute() {
       auto it = prog.rules.find((int)op.getn("k"));
       const Json* rj = op.find("rule");
       if (it == prog.rules.end() || !rj) continue;
-      if (engine || buildNo > 0) doRestart();
+      if (engine || cengine || buildNo > 0) doRestart();
       RuleSpec nr = RuleSpec::fromJson(*rj);
       nr.id = it->second.id;
       nr.key = it->second.key;
@@ -1664,6 +1840,7 @@ void Run::execute() {
     }
   }
   dropEngine();
+  finalDbDump = dumpDatabase();
 }
 
 void Run::finishResult() {
@@ -1704,6 +1881,7 @@ void Run::finishResult() {
   else if (property == "C03") res.nontrivial = restartsDone >= 2 && skippedAfterRestart > 0;
   else if (property == "C05") res.nontrivial = res.counters["cancel_with_waiting_tasks"] > 0 || res.counters["cancel_with_computing_tasks"] > 0;
   else if (property == "C06") res.nontrivial = maxComputing >= 2 && st.switches > 4;
+  else if (property == "C20") res.nontrivial = incrementalMixed > 0;
   else if (property == "C07") res.nontrivial = res.counters["cycle_reports"] > 0 || res.counters["targets_cyclic"] > 0 || incrementalMixed > 0;
   else res.nontrivial = buildNo >= 2;
 }
@@ -1762,6 +1940,7 @@ public:
     RunResult res;
     std::vector<Run::BuildSummary> summaries;
     int64_t vfsInWindow = 0;
+    std::string dbDump;
   };
 
   static Json withConfig(const Json& plan, const std::vector<std::pair<std::string, Json>>& over) {
@@ -1807,6 +1986,7 @@ public:
     o.res = run.res;
     o.summaries = run.summaries;
     o.vfsInWindow = run.vfsInWindow;
+    o.dbDump = run.finalDbDump;
     return o;
   }
 
@@ -2005,8 +2185,64 @@ public:
     return total;
   }
 
+  // ---- C20: the same history through the C++ interface and through the libllbuild C interface
+  RunResult executeC20(const Json& plan) {
+    std::vector<std::pair<std::string, Json>> common = {{"force_sync", Json::boolean(true)}, {"queue", Json::str("inline")},
+                                                        {"zero_signatures", Json::boolean(true)}};
+    auto cpp = common, c = common;
+    c.push_back({"capi", Json::boolean(true)});
+    RunResult total;
+    Outcome a = runOnce(withConfig(plan, cpp), false);
+    if (a.res.failed()) {
+      a.res.detail = "(C++ interface)\n" + a.res.detail;
+      return a.res;
+    }
+    accumulate(total, a.res);
+    Outcome b = runOnce(withConfig(plan, c), false);
+    if (b.res.failed()) {
+      b.res.detail = "(C interface)\n" + b.res.detail;
+      return b.res;
+    }
+    accumulate(total, b.res);
+    total.nontrivial = a.res.nontrivial || b.res.nontrivial;
+    total.counters["bindings_compared"]++;
+    if (a.summaries.size() != b.summaries.size()) {
+      total.status = "viol";
+      total.clause = "C20.1";
+      total.detail = "number of builds differs between the two interfaces";
+      return total;
+    }
+    for (size_t i = 0; i < a.summaries.size(); i++) {
+      const auto& p = a.summaries[i];
+      const auto& q = b.summaries[i];
+      std::string what, clause = "C20.1";
+      if (p.ok != q.ok || p.result != q.result) what = "result";
+      else if (p.executed != q.executed) what = "set of executed rules";
+      else if (p.provides != q.provides) what = "values provided to tasks";
+      else if (p.evhash != q.evhash) {
+        what = "sequence of task/rule callbacks";
+        clause = "C20.2";
+      }
+      if (!what.empty()) {
+        total.status = "viol";
+        total.clause = clause;
+        total.detail = "build " + std::to_string(i + 1) + ": " + what + " differs between the C++ interface and the C interface\n  C++: " + describe(p) +
+                       "\n  C:   " + describe(q) + "\n--- C interface run ---\n" + b.res.detail;
+        return total;
+      }
+      total.counters["builds_compared"]++;
+    }
+    if (a.dbDump != b.dbDump) {
+      total.status = "viol";
+      total.clause = "C20.3";
+      total.detail = "persisted state differs between the two interfaces\n--- C++ ---\n" + a.dbDump.substr(0, 1500) + "--- C ---\n" + b.dbDump.substr(0, 1500);
+    }
+    return total;
+  }
+
   RunResult execute(const Json& plan) override {
     std::string prop = plan.gets("property");
+    if (prop == "C20") return executeC20(plan);
     if (prop == "C03" && plan.gets("scenario", "diff") == "diff") return executeC03(plan);
     if (prop == "C04") return executeC04(plan);
     if (prop == "C06") return executeC06(plan);
@@ -2031,6 +2267,7 @@ EngineFeatures featuresFor(const std::string& property, const runner::GenOptions
   } else if (property == "C03") {
     f.dbPermille = 1000;
     f.numericKeys = true;
+    f.clientVersions = true;
   } else if (property == "C04") {
     f.dbPermille = 1000;
   } else if (property == "C05") {
@@ -2040,6 +2277,12 @@ EngineFeatures featuresFor(const std::string& property, const runner::GenOptions
   } else if (property == "C06") {
     f.asyncPermille = 1000;
     f.dbPermille = 400;
+  } else if (property == "C20") {
+    // what core.h can express: no signatures, no single-use requests, no redefinition of rules
+    f.single = false;
+    f.resig = false;
+    f.reprog = false;
+    f.clientVersions = true;
   } else if (property == "C07") {
     f.cycles = true;
     f.cyclePermille = 700;
